@@ -6,8 +6,10 @@
 mod agentsx;
 mod bookprops;
 mod c07;
+mod c09;
 mod c15;
 mod c17;
+mod c20;
 mod marketx;
 mod envprops;
 mod envx;
@@ -27,6 +29,10 @@ fn main() {
         eprintln!("usage: bverif <C01..C20> <quick|thorough> | bverif replay <file>");
         std::process::exit(2);
     }
+    if args[1] == "c09-child" {
+        let progress = args.get(3).map_or(false, |x| x == "1");
+        std::process::exit(c09::child_main(args[2].as_str(), progress));
+    }
     let tier = args[2].as_str();
     let code = match args[1].as_str() {
         "C01" => bookprops::c01(tier),
@@ -45,9 +51,11 @@ fn main() {
         "C10" => envprops::c10(tier),
         "C11" => envprops::c11(tier),
         "C14" => envprops::c14(tier),
+        "C09" => c09::c09(tier),
         "C15" => c15::c15(tier),
         "C16" => agentsx::c16(tier),
         "C17" => c17::c17(tier),
+        "C20" => c20::c20(tier),
         "C12" => bookprops::c12(tier),
         "C13" => bookprops::c13(tier),
         other => {
